@@ -224,10 +224,10 @@ class MultiLevelTransform(CompositeTransform):
             # more efficient in case of the composition of linear transformations.
             y = super().forward(points, grid)
         else:
-            u = torch.zeros_like(x)
+            u = None
             for i, transform in enumerate(self.transforms()):
                 y = transform.forward(x, grid=grid and i == 0)
-                u += y - x
+                u = y - x if u is None else u + (y - x)
             y = x + u
         return y
 
